@@ -198,6 +198,9 @@ inductive TStmt
          transition = self._initial_transition(trigger_data); self._activate(trigger_data, transition);
          return self._sentinel` -/
   | initialBranch (awaited : Bool)
+  /-- `if trigger_data is self._activation: return self._sentinel` — the engine's own activation trigger
+  (`BaseEngine.start` keeps it in `self._activation`) found a state that was stored in the meantime -/
+  | skipStaleActivation
   /-- `state = self.sm.current_state` (raises `InvalidStateValue` when the stored value maps to no state) -/
   | readState
   /-- `for transition in state.transitions: <body> else: if not self.sm.allow_event_without_transition:
@@ -248,6 +251,8 @@ def runT (m : Machine) (t : Trigger) (act : Transn → EM (Option Res)) (actI : 
       actI
       pure none
     else runT m t act actI r e
+  | .skipStaleActivation :: r, e =>
+    if t.event == initialEv && t.internal then pure none else runT m t act actI r e
   | .readState :: r, e => do
     let cfg ← EM.get
     match cfg.cur.bind (lookupState m) with
